@@ -2,6 +2,7 @@
 """Regenerates the `fixed` list of known_findings.json from /repo's "fix:" commits."""
 import json, subprocess
 PROP = {
+"an additional-properties field of a discriminated member":"C13",
 "type names containing":"C17",
 "schema generation failed for recursion through a properties field":"C17",
 "dialect converters modified the user":"C18",
